@@ -105,6 +105,9 @@ def GSet.add (s : GSet) (x : Nat × Nat) : GSet :=
   { data := if x ∈ s.data then s.data else x :: s.data,
     tp := if s.tp = tpUntyped ∧ knownType x.1 then x.1 else s.tp }
 
+/-- variadic `Add(i ...any)` / `AddInt(ii ...int)` …: `for _, each := range i { s.add(each) }` -/
+def GSet.addMany (s : GSet) (xs : List (Nat × Nat)) : GSet := xs.foldl GSet.add s
+
 def GSet.remove (s : GSet) (x : Nat × Nat) : GSet := { s with data := s.data.filter (· ≠ x) }
 
 def GSet.contains (s : GSet) (x : Nat × Nat) : Bool :=
